@@ -4,6 +4,7 @@ package main
 
 import (
 	"fmt"
+	"regexp"
 	"strings"
 )
 
@@ -15,13 +16,19 @@ type lemmaParts struct {
 	ens    []Term
 	trig   string
 	measure Term
+	fuelBound bool
 }
+
+var fuelVarRe = regexp.MustCompile(`\bly[0-9]+\b`)
 
 func (P *Prog) lemmaElab(lm *Lemma, prefix string) (*lemmaParts, error) {
 	pkg := P.pkgOf(lm.Pkg)
 	lp := &lemmaParts{}
 	env := &Env{P: P, pkg: pkg, bound: map[string]Val{}}
 	env.fuelAll = prefix != "c_" // axiom and induction-hypothesis forms hold for every fuel
+	ctr := 0
+	env.fuelCtr = &ctr
+	env.fuelMap = map[string]string{}
 	for _, b := range lm.Params {
 		t, err := P.resolveType(pkg, b.Type)
 		if err != nil {
@@ -38,6 +45,19 @@ func (P *Prog) lemmaElab(lm *Lemma, prefix string) (*lemmaParts, error) {
 		env.bound[b.Name] = v
 	}
 	lp.env = env
+	env.fuelNew = true
+	for _, tr := range lm.Triggers {
+		var ps []string
+		for _, te := range tr {
+			v, err := env.elab(te)
+			if err != nil {
+				return nil, fmt.Errorf("lemma %s trigger: %v", lm.Name, err)
+			}
+			ps = append(ps, v.T.S)
+		}
+		lp.trig += " :pattern (" + strings.Join(ps, " ") + ")"
+	}
+	env.fuelNew = false
 	for _, c := range lm.Requires {
 		t, err := env.elabBool(c.E)
 		if err != nil {
@@ -51,17 +71,6 @@ func (P *Prog) lemmaElab(lm *Lemma, prefix string) (*lemmaParts, error) {
 			return nil, fmt.Errorf("lemma %s ensures (%s): %v", lm.Name, c.Text, err)
 		}
 		lp.ens = append(lp.ens, t)
-	}
-	for _, tr := range lm.Triggers {
-		var ps []string
-		for _, te := range tr {
-			v, err := env.elab(te)
-			if err != nil {
-				return nil, fmt.Errorf("lemma %s trigger: %v", lm.Name, err)
-			}
-			ps = append(ps, v.T.S)
-		}
-		lp.trig += " :pattern (" + strings.Join(ps, " ") + ")"
 	}
 	if lm.Measure != nil {
 		m, err := env.elab(lm.Measure)
@@ -78,11 +87,27 @@ func (P *Prog) lemmaElab(lm *Lemma, prefix string) (*lemmaParts, error) {
 
 func (lp *lemmaParts) quantified(extraHyp Term) string {
 	body := implies(and(append([]Term{extraHyp}, lp.req...)...), and(lp.ens...))
-	if containsSym(body.S+lp.trig, "ly") {
-		lp.decls = append([]string{"(ly Fuel)"}, lp.decls...)
-		if lp.trig != "" && !containsSym(lp.trig, "ly") {
-			// the trigger must mention the fuel variable: fall back to solver-chosen patterns
-			lp.trig = ""
+	if !lp.fuelBound {
+		lp.fuelBound = true
+		seen := map[string]bool{}
+		var fuels []string
+		for _, m := range fuelVarRe.FindAllString(body.S+" "+lp.trig, -1) {
+			if !seen[m] {
+				seen[m] = true
+				fuels = append(fuels, "("+m+" Fuel)")
+			}
+		}
+		if len(fuels) > 0 {
+			lp.decls = append(fuels, lp.decls...)
+			if lp.trig != "" {
+				// every bound fuel variable must occur in the trigger, else let the solver choose patterns
+				for m := range seen {
+					if !containsSym(lp.trig, m) {
+						lp.trig = ""
+						break
+					}
+				}
+			}
 		}
 	}
 	if len(lp.decls) == 0 {
